@@ -24,6 +24,7 @@ def run(ctx):
             "seed": ctx.seed * 131 + k, "single": [stride, (k * (stride // core.NCPU) + ctx.seed) % stride], "procs": core.NCPU, "proc": k,
             "blocks": [bstride, (k * (bstride // core.NCPU) + ctx.seed) % bstride, 400],
             "random": (3200 if quick else 64000) // core.NCPU,
+            "export": (320 if quick else 6400) // core.NCPU,
             "pairs": [core.NCPU, k, 2 if quick else 15],
             "pair_ranges": ([[0x20, 0x250], [0x370, 0x530], [0x1E00, 0x2000], [0x2C60, 0x2C80], [0xA720, 0xA800]] if quick
                             else [[0x20, 0x3000], [0xA000, 0xAC00], [0xF900, 0x10000], [0x1D400, 0x1D800]]),
